@@ -16,3 +16,8 @@ Definition x_mk_history (n : nat) (half : bool) (key : list N) (tape : list (lis
 (* masked-state histories: only the permutation steps act on the value *)
 Definition x_ms_run (prog : list (option nat)) (st : list N) : list N :=
   fold_left (fun s o => match o with Some k => Perm.perm k s | None => s end) prog st.
+(* masked words given directly (the five words of a masked state) *)
+Definition x_mws_history (n : nat) (half : bool) (ws : list (list N)) (tape : list (list N)) (rounds : nat) :=
+  let t := map Bytes.be_decode tape in
+  let '(v0, rs) := mws_history n (map Bytes.be_decode ws) (if half then pair32 (length t) t else t) rounds in
+  (map (Bytes.be_encode 8) v0, map (fun e => (map (Bytes.be_encode 8) (fst e), snd e)) rs).
